@@ -182,6 +182,37 @@ def _rand_vals(rng, n, style):
     return [rng.choice(DY) for _ in range(n)]
 
 
+SWITCHES = ['train_net_only', 'train_nas_only', 'train_net_and_nas', 'features_off', 'rf_off', 'dilation_off', 'rf_dilation_off', 'all_masks_off']
+
+
+def apply_switch(p, sw):
+    """trainability controls of the wrapper: they only change requires_grad flags, never a mask value"""
+    if sw in ('train_net_only', 'train_nas_only', 'train_net_and_nas'):
+        getattr(p, sw)()
+    elif sw == 'features_off':
+        p.train_features = False
+    elif sw == 'rf_off':
+        p.train_rf = False
+    elif sw == 'dilation_off':
+        p.train_dilation = False
+    elif sw == 'rf_dilation_off':
+        p.train_rf = False
+        p.train_dilation = False
+    elif sw == 'all_masks_off':
+        p.train_features = False
+        p.train_rf = False
+        p.train_dilation = False
+
+
+def restore_flags(p, flags):
+    p.train_net_and_nas()
+    p.train_features = True
+    p.train_rf = True
+    p.train_dilation = True
+    for q, f in flags:
+        q.requires_grad = f
+
+
 def pit_case(torch, seed, style, full=False):
     """-> JSON-able observation dict of one network (exceptions are observations).
     full: full_cost=True with 1-2 cost-bearing layers excluded by name (costed with their static sizes), one
@@ -212,11 +243,18 @@ def pit_case(torch, seed, style, full=False):
         p = PIT(m, input_shape=tuple(spec['input_shape']), cost=dict(specs), **kw)
         # single specifications: one metric (all metrics in the full_cost stream)
         singles = {w: PIT(ga.build(spec, seed=seed), input_shape=tuple(spec['input_shape']), cost=specs[w], **kw) for w in (names if full else [single])}
+        # the same network traced with an input_example of one sample and of several samples (other values)
+        gx = torch.Generator().manual_seed(seed + 3)
+        nb = rng.randint(2, 8)
+        o['example_batch'] = nb
+        others = {'input_example[1]': PIT(ga.build(spec, seed=seed), input_example=torch.randn((1,) + tuple(spec['input_shape']), generator=gx), cost=dict(specs), **kw),
+                  'input_example[%d]' % nb: PIT(ga.build(spec, seed=seed), input_example=torch.randn((nb,) + tuple(spec['input_shape']), generator=gx) * 3.0, cost=dict(specs), **kw)}
         nas = [(n, q) for n, q in p.named_nas_parameters()]
         train = [(n, q) for n, q in nas if q.requires_grad]
+        flags0 = [(q, bool(q.requires_grad)) for q in p.parameters()]
         o['n_nas'] = sum(q.numel() for _, q in train)
         vals0 = {n: _rand_vals(rng, q.numel(), style) for n, q in train}
-        nas_s = [dict(w.named_nas_parameters()) for w in singles.values()]
+        nas_s = [dict(w.named_nas_parameters()) for w in list(singles.values()) + list(others.values())]
 
         def setall(vv):
             for n, q in train:
@@ -240,6 +278,10 @@ def pit_case(torch, seed, style, full=False):
                 cs = float(singles[which].cost)
                 if cs != S['value']:
                     o['fails'].append(('single-vs-dict-specification-differ:' + which, {'single': cs, 'dict': S['value'], 'order': o['order'], 'excluded': o.get('excluded')}))
+            for tag, ow in others.items():
+                co = float(ow.get_cost(which))
+                if co != S['value']:
+                    o['fails'].append(('cost-depends-on-the-traced-input-example:' + which, {'input_shape': S['value'], tag: co}))
             stage = 'grad:' + which
             g = torch.autograd.grad(c, [q for _, q in train], allow_unused=True, retain_graph=True) if (train and c.requires_grad) else [None] * len(train)
             gw = torch.autograd.grad(c, [q for _, q in netw], allow_unused=True, retain_graph=True) if c.requires_grad else [None] * len(netw)
@@ -326,6 +368,27 @@ def pit_case(torch, seed, style, full=False):
         # ---- float64 evaluation for the comparison with the model (value + gradient), Coq literals
         # ---- re-assigning the cost specification after the masks have moved changes nothing: same value as before
         # (= as a FRESH wrapper carrying identical mask values), dict <-> single, and all masks open == original
+        stage = 'trainability'
+        setall(vals0)
+        for sw in rng.sample(SWITCHES, 3):
+            apply_switch(p, sw)
+            still = [(n, q) for n, q in train if q.requires_grad]
+            for which in names:
+                c = p.get_cost(which)
+                if float(c) != o['specs'][which]['value']:
+                    o['fails'].append(('cost-changes-with-trainability-switch:' + which, {'switch': sw, 'before': o['specs'][which]['value'], 'after': float(c)}))
+                if still and c.requires_grad:
+                    g = torch.autograd.grad(c, [q for _, q in still], allow_unused=True)
+                    for (n, q), gg in zip(still, g):
+                        gl = [0.0] * q.numel() if gg is None else [float(v) for v in gg.flatten()]
+                        g0 = o['specs'][which]['grad32'][n]
+                        sc = max([abs(v) for v in g0] + [1.0])
+                        if any(abs(a - b) > 2.0 ** -18 * sc for a, b in zip(gl, g0)):
+                            o['fails'].append(('gradient-changes-with-trainability-switch:' + which, {'switch': sw, 'param': n, 'before': g0[:6], 'after': gl[:6]}))
+                            break
+                elif still and any(any(v != 0 for v in o['specs'][which]['grad32'][n]) for n, _ in still):
+                    o['fails'].append(('gradient-changes-with-trainability-switch:' + which, {'switch': sw, 'cost_requires_grad': False}))
+            restore_flags(p, flags0)
         stage = 'reassign'
         setall(lo)
         p.cost_specification = dict(specs)
@@ -363,6 +426,7 @@ def pit_case(torch, seed, style, full=False):
                 if c2 != o['specs'][which]['value']:
                     o['fails'].append(('cost-depends-on-evaluation-order:' + which, {'first_read': o['specs'][which]['value'], 'read_in_order': order, 'value': c2, 'excluded': o.get('excluded')}))
         stage = 'float64'
+        o['switch64'] = rng.choice([None, None] + SWITCHES)
         p.double()
         for which in names:
             shared = specs[which].shared
@@ -381,6 +445,12 @@ def pit_case(torch, seed, style, full=False):
             S['pids'] = [{'pid': k, 'tensor': id(t) % 10 ** 9, 'trainable': bool(t.requires_grad), 'grad': gmap.get(id(t))} for k, t in enumerate(plist)]
             S['n_layers'] = len(layers)
             S['lens'] = [t.numel() for t in plist]
+        if o['switch64']:
+            # the VALUE compared with the model is the one read under a seeded trainability switch (the gradients above are
+            # taken with everything trainable; the float32 stage 'trainability' ties the switched gradients to them)
+            apply_switch(p, o['switch64'])
+            for which in names:
+                o['specs'][which]['value64'] = float(p.get_cost(which))
     except Exception as ex:
         o['fails'].append(('exception:' + stage.split(':')[0], '%s: %s' % (type(ex).__name__, str(ex)[:300])))
         o['trace'] = traceback.format_exc()[-1500:]
